@@ -429,6 +429,10 @@ func cmdHarness(args []string) int {
 			opts.MapOrders = true
 			continue
 		}
+		if a == "-fp" {
+			opts.FloatMode = "fp"
+			continue
+		}
 		kv := strings.SplitN(a, "=", 2)
 		if len(kv) == 2 {
 			n, _ := strconv.ParseInt(kv[1], 10, 64)
